@@ -81,6 +81,8 @@ type Contract struct {
 	MaxPaths      int
 	MergeExits    bool
 	NoMerge       bool // path splitting at top-level branching statements
+	Touches       []string // properties some obligation of this function is tagged with although no clause of its own is (selection only)
+	GoInline      bool // go func(){...}() literals are executed in place (the goroutine's own order of actions; no interleaving)
 	GuardsOn      bool
 	Callers       []string // whitelist of calling functions (nil = anyone)
 	CallersProps  []string
@@ -803,6 +805,10 @@ func (cf *ContractFile) parseOne(path string) error {
 				c.NoSafety = true
 			case "nomerge":
 				c.NoMerge = true
+			case "goinline":
+				c.GoInline = true
+			case "touches":
+				c.Touches = append(c.Touches, strings.Fields(strings.ReplaceAll(rest, ",", " "))...)
 			case "mergeexits":
 				c.MergeExits = true
 			case "maxpaths":
